@@ -314,7 +314,7 @@ def oracle_step(op, r, before, after, live_before, complete):
 
 
 FOREIGN_CONTENTS = [b"", b"abc\n", b"12", b" 77 \n", b"+77\n", b"7_7\n", b"1e3\n", b"0\n", b"-5\n", b"077\n",
-                    b"77\n", b"78\n", b"11\n", b"12\n", b"13\n", b"7 7\n", b"\n", b"77", b"\t78\r\n", b"_77\n", b"77_\n"]
+                    b"77\n", b"78\n", b"11\n", b"12\n", b"13\n", b"7 7\n", b"\n", b"77", b"\t78\r\n", b"_77\n", b"77_\n", b"\x1c77\n", b"77\x1f\n", b"\x0b77\x0c\n"]
 
 
 def gen_history(rng, maxlen):
